@@ -133,3 +133,9 @@ pub use convert::{F16ToF32, F32ToF16};
 
 // Utilities
 pub use extend_init::ExtendInit;
+
+/// Verification hooks (only compiled with `--cfg rten_verif`): re-exports of
+/// crate-private items so an external harness can call them directly.
+#[cfg(rten_verif)]
+#[doc(hidden)]
+pub mod verif {}
